@@ -1,3 +1,4 @@
+\* X02 non-vacuity: deviation "overwrite-err" must violate FirstCauseWins
 SPECIFICATION Spec
 CONSTANTS
   MaxNodes = 3
